@@ -171,6 +171,57 @@ func realSilentPeers() {
 	wg.Wait()
 }
 
+// serveTruncatingUDPWithMuteTCP: a UDP listener answering every query with TC set
+// and an empty answer section, and on the same port a TCP listener that accepts,
+// reads and never writes.
+func serveTruncatingUDPWithMuteTCP(h loopnet.Handler) (*loopnet.Server, error) {
+	for try := 0; try < 50; try++ {
+		pc, err := net.ListenPacket("udp", "127.0.0.1:0")
+		if err != nil {
+			return nil, err
+		}
+		ln, err := net.Listen("tcp", pc.LocalAddr().String())
+		if err != nil {
+			pc.Close()
+			continue
+		}
+		go func() {
+			buf := make([]byte, 65535)
+			for {
+				n, from, err := pc.ReadFrom(buf)
+				if err != nil {
+					return
+				}
+				qi, err := dnsadv.ParseQuery(buf[:n])
+				if err != nil {
+					continue
+				}
+				h(append([]byte(nil), buf[:n]...), "udp-truncated", 0, func([]byte) {})
+				pc.WriteTo(dnsadv.Reply(qi.WireID, 0x8380, qi.QSect, "tc", 0, 0), from)
+			}
+		}()
+		go func() {
+			for {
+				c, err := ln.Accept()
+				if err != nil {
+					return
+				}
+				go func() {
+					defer c.Close()
+					buf := make([]byte, 4096)
+					for {
+						if _, err := c.Read(buf); err != nil {
+							return
+						}
+					}
+				}()
+			}
+		}()
+		return loopnet.NewServer("udp", pc.LocalAddr().String(), func() { pc.Close(); ln.Close() }), nil
+	}
+	return nil, fmt.Errorf("no port pair")
+}
+
 // realCancelledCalls: every scheme NewUpstream knows (incl. DoH over h2 and h3
 // and DoQ, whose per-query reader goroutines live outside the fake-connection
 // cases) against a server that completes every handshake, reads the query and
@@ -202,6 +253,9 @@ func realCancelledCalls() {
 		{"https", false, func() (*loopnet.Server, error) { return loopnet.ServeDoH(pki, mute) }},
 		{"h3", false, func() (*loopnet.Server, error) { return loopnet.ServeDoH3(pki, mute) }},
 		{"quic", false, func() (*loopnet.Server, error) { return loopnet.ServeDoQ(pki, mute) }},
+		// plain udp whose every reply is truncated, with a TCP side that accepts and
+		// never answers: the call is then waiting in the TCP retry when its context ends
+		{"udp-truncated-then-mute-tcp", false, func() (*loopnet.Server, error) { return serveTruncatingUDPWithMuteTCP(mute) }},
 	}
 	var wg sync.WaitGroup
 	for _, c := range cases {
@@ -232,30 +286,58 @@ func realCancelledCalls() {
 				go func(i int) {
 					defer cw.Done()
 					rep.Eval(1)
-					seq := int(seqCtr.Add(1))
 					d := time.Duration(60+60*i) * time.Millisecond
-					ctx, cancel := context.WithTimeout(context.Background(), d)
-					defer cancel()
-					done := make(chan error, 1)
-					go func() {
-						r, err := u.ExchangeContext(ctx, dnsadv.Query(uint16(seq), seq, 1, "c07", 1))
-						if err == nil {
-							pool.ReleaseBuf(r)
+					// one attempt: returns how long after the context deadline the call came back
+					// (-1: not within wCtx)
+					attempt := func() (lag time.Duration, err error) {
+						seq := int(seqCtr.Add(1))
+						ctx, cancel := context.WithTimeout(context.Background(), d)
+						defer cancel()
+						done := make(chan error, 1)
+						t0 := time.Now()
+						go func() {
+							r, err := u.ExchangeContext(ctx, dnsadv.Query(uint16(seq), seq, 1, "c07", 1))
+							if err == nil {
+								pool.ReleaseBuf(r)
+							}
+							done <- err
+						}()
+						select {
+						case err := <-done:
+							lag := time.Since(t0) - d
+							if lag < 0 {
+								lag = 0 // returned (with an error) before its deadline
+							}
+							return lag, err
+						case <-time.After(d + wCtx):
+							return -1, nil
 						}
-						done <- err
-					}()
+					}
 					wit := map[string]any{"scheme": name, "ctx_timeout_ms": d.Milliseconds()}
-					select {
-					case err := <-done:
-						if err == nil {
-							rep.Violation("reply-from-nowhere-real-"+name, "exchange against a server that never answers returned success", wit)
-						} else {
-							rep.Count("real_cancelled_calls_returned_with_error", 1)
-							rep.Nontrivial(fmt.Sprintf("real-cancelled|%s|%d", name, i))
+					lag, err := attempt()
+					if lag > wPrompt {
+						// "promptly": a lag of seconds is either the transport ignoring the context or a
+						// badly loaded machine; only a lag that repeats on a quiet retry is judged
+						rep.Count("real_cancelled_calls_late_once(retried)", 1)
+						time.Sleep(200 * time.Millisecond)
+						lag2, err2 := attempt()
+						if lag2 > wPrompt || lag2 < 0 {
+							wit["lag_ms_first"], wit["lag_ms_retry"] = lag.Milliseconds(), lag2.Milliseconds()
+							rep.Violation("call-returned-late-real-"+name+"-ctx-deadline", fmt.Sprintf("exchange returned %.1f s (retry: %.1f s) after its context deadline; the server never answers and nothing but the context can end the call promptly", lag.Seconds(), lag2.Seconds()), wit)
+							return
 						}
-					case <-time.After(d + wCtx):
+						lag, err = lag2, err2
+					}
+					switch {
+					case lag < 0:
 						wit["goroutines"] = trunc(leak.Full(), 60000)
 						rep.Violation("call-did-not-return-real-"+name+"-ctx-deadline", fmt.Sprintf("exchange still blocked %.0f s after its context deadline (server never answers)", wCtx.Seconds()), wit)
+					case err == nil:
+						rep.Violation("reply-from-nowhere-real-"+name, "exchange against a server that never answers returned success", wit)
+					default:
+						rep.Count("real_cancelled_calls_returned_with_error", 1)
+						rep.Max("real_cancelled_call_lag_ms:"+name, lag.Milliseconds())
+						rep.Nontrivial(fmt.Sprintf("real-cancelled|%s|%d", name, i))
 					}
 				}(i)
 			}
